@@ -111,7 +111,7 @@ def pos_weights(n):
 
 @st.composite
 def curves(draw, pmin=0, pmax=4, kmax=4, rational=None, dim=None, nums=("frac",),
-           interval=None, grid=None, degree=None, values=None, regimes=None, negweights=True, wfactor=None):
+           interval=None, grid=None, degree=None, values=None, regimes=None, negweights=True, wfactor=None, far=True):
     """A curve case dict {'U','p','P','w','num'}."""
     if regimes is None:
         regimes = "std" if interval is None and values is None else False  # callers that fix interval / values keep them
@@ -137,8 +137,10 @@ def curves(draw, pmin=0, pmax=4, kmax=4, rational=None, dim=None, nums=("frac",)
     if regimes and num in ("frac", "fracint") and draw(st.integers(0, 7)) == 0:
         # numeric regimes, exact profile only: knots around +-1e6, very short / very long parameter intervals,
         # control points around 1e8 or 1e-8 (float profiles stay well conditioned on purpose)
-        a0, sc = draw(st.sampled_from([(F(10 ** 6), F(1)), (F(-10 ** 6), F(1000)), (F(0), F(1, 1000)), (F(0), F(10 ** 5)),
-                                        (F(17 * 10 ** 8), F(1)), (F(-10 ** 12), F(1))]))  # (time stamps)
+        # (the last two - time stamps - only where every step is exact: a float rule maps its nodes with float
+        # arithmetic, which at 1e12 moves them by 1e-4)
+        a0, sc = draw(st.sampled_from([(F(10 ** 6), F(1)), (F(-10 ** 6), F(1000)), (F(0), F(1, 1000)), (F(0), F(10 ** 5))] +
+                                       ([(F(17 * 10 ** 8), F(1)), (F(-10 ** 12), F(1))] if far else [])))
         U = [a0 + sc * u for u in U]
         # tiny control points only on request ("all"): operations that accept a removal within the library's
         # absolute 1e-9 tolerance (clean, knot_remove, degree_decrease, join, derivative) legitimately smooth them
